@@ -371,7 +371,7 @@ where
         let use_tls = parts
             .uri
             .scheme_str()
-            .is_some_and(|s| matches!(s, "https" | "wss"));
+            .is_some_and(|s| s.eq_ignore_ascii_case("https") || s.eq_ignore_ascii_case("wss"));
 
         match &mut self.braid {
             InnerBraid::Plain(inner) => {
